@@ -31,9 +31,11 @@ nC == <<99>>
 ConflictPaths == {<<nA>>, <<nAdotB>>, <<nA, nB>>, <<nA, nC>>, <<nAdash>>, <<nA0>>, <<nA, nB, nC>>, <<nB>>}
 SmallPaths == {<<nA>>, <<nAdotB>>, <<nA, nB>>, <<nA0>>, <<nA, nB, nC>>, <<nB>>}
 DeepPaths == {<<nA>>, <<nA, nB>>, <<nA, nC>>, <<nA, nB, nC>>, <<nAdotB>>, <<nB>>}
+MiniPaths == {<<nA>>, <<nA, nB>>, <<nB>>}
 TinyPaths == {<<nA>>, <<nAdotB>>, <<nA, nB>>, <<nB>>}
 AllCells == {<<"F", "x">>, <<"F", "y">>, <<"X", "x">>, <<"X", "y">>, <<"L", "x">>, <<"L", "y">>, <<"G", "x">>, <<"G", "y">>}
 FourCells == {<<"F", "x">>, <<"F", "y">>, <<"L", "x">>, <<"G", "x">>}
+TwoCells == {<<"F", "x">>, <<"F", "y">>}
 ThreeCells == {<<"F", "x">>, <<"F", "y">>, <<"L", "x">>}
 FiveCells == {<<"F", "x">>, <<"F", "y">>, <<"X", "x">>, <<"L", "x">>, <<"G", "x">>}
 \* path filters: single paths, a directory, a directory and a file
